@@ -1,1 +1,3 @@
-
+import EpsieProofs.Scratch
+import EpsieProofs.ChainInv
+import EpsieProofs.PTInv
